@@ -510,6 +510,19 @@ func driverMain(prop, tier string) int {
 	}
 
 	wall := time.Since(t0).Seconds()
+	covTable := map[string]int64{}
+	measured := map[string]int64{}
+	for k, v := range d.agg {
+		if strings.HasPrefix(k, "cov:") {
+			covTable[k[4:]] = v
+		} else {
+			measured[k] = v
+		}
+	}
+	if len(covTable) > 0 {
+		d.extra["method_state_outcome_counts"] = covTable
+		measured["method_state_outcome_combinations"] = int64(len(covTable))
+	}
 	cov := map[string]interface{}{
 		"evaluations":         len(d.results),
 		"distinct_nontrivial": len(distinct),
@@ -517,7 +530,7 @@ func driverMain(prop, tier string) int {
 		"samples":             samples,
 		"verdicts":            verdicts,
 		"inconclusive":        d.incon,
-		"measured":            d.agg,
+		"measured":            measured,
 		"workers":             nsh,
 	}
 	for k, v := range d.extra {
@@ -545,6 +558,9 @@ func driverMain(prop, tier string) int {
 		prop, tier, seed, len(d.results), len(distinct), verdicts, len(d.viol), d.agg["known_finding_witnesses"], wall)
 	keys := make([]string, 0, len(d.agg))
 	for k := range d.agg {
+		if strings.HasPrefix(k, "cov:") {
+			continue
+		}
 		keys = append(keys, k)
 	}
 	sort.Strings(keys)
